@@ -159,6 +159,9 @@ QSample(q, s, d, qd, p) ==
            \cup (IF p > q.npanic THEN {<<"C11", "panic-count-too-high">>} ELSE {})
   IN Flag(q, v)
 
+\* reading the counters panicked
+QSamplePanic(q) == Flag(q, {<<"C20", "panic-while-reading-the-counters">>, <<"C15", "queued-wrapped-around-and-panicked">>})
+
 \* a high-contention phase: many threads emitted at once, each counted its own Ok results, the wrapped sink counted
 \* what it was handed; only the totals are recorded (C15 "exact under any concurrency", at quiescence)
 QBulk(q, okn, deln) == [q EXCEPT !.bulkOk = @ + okn, !.bulkDel = @ + deln]
